@@ -67,6 +67,9 @@ Modules(tier) ==
   { N("module", "m", {}, << x >>) : x \in Classes(tier) \cup Funcs \cup Enums \cup EnumsB }
   \cup { N("module", "m", {}, << x, y >>) : x \in Funcs \cup Enums, y \in { c \in Classes(tier) : c.name = "Cls" /\ Len(c.ch) <= 2 } }
   \cup { N("module", "m", {}, << y, x, z >>) : x \in Funcs, z \in Enums, y \in { c \in Classes(tier) : c.name = "Cls" /\ Len(c.ch) = 1 } }
+  \* a class that derives from an enum class of its own module (an enum only indirectly): it is walked like any class, members and methods
+  \cup { N("module", "m", {}, << EnumN("BaseKind", 0), [ ClassN("Kind", FALSE, TRUE, ms, "none", "none") EXCEPT !.flags = {"super-userenum"} ] >>)
+         : ms \in { << Method("inst") >>, << Method("inst"), Method("static") >>, << Method("property"), Method("classmethod") >> } }
   \* names that merely end in "__init__": a class Cls__init__ with attributes and a constructor, a module file m__init__.py
   \cup { N("module", "m", {}, << ClassN("Cls__init__", TRUE, TRUE, << Method("inst") >>, "none", "none") >>),
          N("module", "m", {"initlike-filename"}, << ClassN("Cls", TRUE, TRUE, << Method("inst") >>, "none", "none"), N("func", "fun", {}, << Param("a"), Param("b"), Res >>) >>) }
